@@ -97,6 +97,21 @@ Theorem C18_direct_convert_content : forall n0 gc nc g,
 Proof. exact direct_convert_content. Qed.
 Print Assumptions C18_direct_convert_content.
 
+(* the postprocess_nodes callback of the copy: a bound method is re-bound to the copy of its self (for
+   a method of the graph itself: to the OUTPUT graph), a stateful callable is copied, so a structural
+   edit of the output writes to objects allocated by the conversion only *)
+Theorem C18_direct_callback_rebound : forall n0 gc nc g,
+  gpost (direct_convert n0 gc nc g) = copy_post n0 (gpost g) /\
+  (gpost g = PostBound (gid g) ->
+     gpost (direct_convert n0 gc nc g) = PostBound (gid (direct_convert n0 gc nc g))) /\
+  Forall (fun i => n0 <= i) (post_ids (gpost (direct_convert n0 gc nc g))).
+Proof.
+  intros n0 gc nc g. split; [reflexivity|]. split.
+  - intros H. unfold direct_convert. cbn [gpost gid]. rewrite H. reflexivity.
+  - unfold direct_convert. cbn [gpost]. destruct (gpost g); cbn; repeat constructor; apply Nat.le_add_r.
+Qed.
+Print Assumptions C18_direct_callback_rebound.
+
 Theorem C18_identity_adapter : forall g, identity_adapt g = g /\ identity_restore g = g.
 Proof. intros g. split; reflexivity. Qed.
 Print Assumptions C18_identity_adapter.
